@@ -144,7 +144,7 @@ def run(ctx):
     docs = corpus_docs() + make_docs(ctx, n)
     ctx.log('loading %d documents three times each (1.4.1 / 1.5 / random namespace URI)' % len(docs))
     failures, per = evaluate(ctx, docs)
-    terms, idx, tables = [], [], []
+    terms, idx, tables, encode_errors = [], [], [], []
     for i, (doc, (ns, vs, r0, rs)) in enumerate(zip(docs, per)):
         if len(terms) >= ncoq:
             break
@@ -153,7 +153,11 @@ def run(ctx):
         k = len(terms) % len(vs)
         if 'snap' not in rs[k]:
             continue
-        t, table = coq_case(doc, ns, vs[k][0], vs[k][1], rs[k])
+        try:
+            t, table = coq_case(doc, ns, vs[k][0], vs[k][1], rs[k])
+        except Exception as e:  # noqa
+            encode_errors.append({'case_index': i, 'error': 'snapshot not encodable as a Coq view: %r' % (e,)})
+            continue
         terms.append(t)
         idx.append((i, k))
         tables.append(table)
@@ -190,7 +194,7 @@ def run(ctx):
         'samples': [{'new_ns': per[i][1][k][0], 'xml': docs[i]['xml'][:1200]} for i, k in idx[:2]],
         'distribution': feats,
         'mismatches': mismatches,
-        'errors': errors,
+        'errors': errors + encode_errors[:3],
     }
 
     def search(mm):
